@@ -164,8 +164,45 @@ def lazy(tr, sem):
     return v
 
 
+def c09_routing(tr):
+    """trace-only: a consumer of a switch is invoked with the latest value of the case whose label is the latest value
+    of the decision node (values as recorded by the artifact store)"""
+    g = tr['graph']
+    sw = {n['id'] for n in g['nodes'] if n['is_switch']}
+    if not sw:
+        return []
+    decider, cases = {}, {}
+    for e in g['edges']:
+        if e['v'] in sw:
+            if e.get('is_switch'):
+                decider[e['v']] = e['u']
+            elif e.get('case') is not None:
+                cases.setdefault(e['v'], {})[e['case']] = e['u']
+    cons = [(e['u'], e['v'], e['kwarg']) for e in g['edges'] if e['u'] in sw and e.get('kwarg')]
+    last = {}
+    v = []
+    for _, o in _obs(tr, ('save', 'body')):
+        if o[0] == 'save':
+            last[o[2]] = o[3]
+        else:
+            n, kw = o[2], o[5]
+            for s_, c_, k in cons:
+                if c_ != n or k not in kw or decider.get(s_) not in last:
+                    continue
+                lab = last[decider[s_]]
+                want = cases.get(s_, {}).get(lab if isinstance(lab, str) else None)
+                if want is None or want not in last:
+                    continue
+                if kw[k] != last[want] and not v:
+                    v.append(f'node {n} invoked with {k}={kw[k]!r}; the decision node {decider[s_]} returned {lab!r}, whose '
+                             f'case node {want} has the value {last[want]!r}')
+    return v
+
+
 def c09(tr, sem=None):
-    return lazy(tr, sem) if any(n['is_switch'] for n in tr['graph']['nodes']) else []
+    if not any(n['is_switch'] for n in tr['graph']['nodes']):
+        return []
+    return c09_routing(tr) + lazy(tr, sem)
 
 
 def c10(tr, sem=None):
@@ -403,7 +440,7 @@ def c06_oracle(tr):
 
 HYPOTHESES = {'C06': c06_oracle}
 
-EVERYWHERE = ('C04', 'C06', 'C12', 'C13', 'C14', 'C19')      # monitors that need no fragment hypothesis
+EVERYWHERE = ('C04', 'C06', 'C09', 'C12', 'C13', 'C14', 'C19')      # monitors that need no fragment hypothesis
 
 ALL = {'C12': c12, 'C06': c06, 'C01': c01, 'C02': c02, 'C03': c03, 'C04': c04, 'C05': c05, 'C09': c09, 'C10': c10, 'C11': c11,
        'C13': c13, 'C14': c14, 'C19': c19}
